@@ -9,14 +9,21 @@
   use is at most quadratic in the input size and a tiny file can never demand gigabytes."
   Quantifier: all byte strings, little- and big-endian.
 
-  The theorems are about `MdModel.Dump.readAll` — `Minidump::read` followed by `get_stream` of the
-  eleven modelled stream types (thread list, module list, unloaded-module list, memory list,
+  Sections 1-6 are about `MdModel.Dump.readAll` — `Minidump::read` followed by `get_stream` of the
+  eleven list / record stream types (thread list, module list, unloaded-module list, memory list,
   memory-64 list, memory-info list, thread names, thread-info list, handle data, exception,
-  Crashpad info) — the
-  very function the compiled driver runs and the `read` engine compares with the real reader on
-  every check. In the model every Rust operation that can panic (`+ - +=` on `usize`, `&b[lo..hi]`,
-  array indexing) is a checked primitive with an explicit `panic` outcome, a loop that could fail to
-  end (the handle object-info walk) takes fuel and reports fuel exhaustion as a panic outcome, and
+  Crashpad info). Sections 7-11 are about `MdModel.Dump.readFull` = `readAll` followed by
+  `readExtra` (MdModel.DumpFull): the system info (CSD string, the CPU union as `cpu_info` text),
+  `MinidumpContext::read` for every thread and for the exception (the nine CONTEXT_* records,
+  generated layouts), `stack_memory`, `last_error`, the lookup tables `from_regions` builds (C08's
+  model), the crash-reason / crash-address array reads, the stack and memory dump loops of the
+  printers, the five Linux key/value text streams with their iterators driven to the end, Breakpad
+  info, assertion info, macOS crash info and boot args.
+  `readFull` is the very function the compiled driver runs and the `read` engine compares with the
+  real reader on every check. In the model every Rust operation that can panic (`+ - +=` on `usize`,
+  `&b[lo..hi]`, `&b[lo..=hi]`, array indexing, `unwrap`) is a checked primitive with an explicit
+  `panic` outcome, a loop that could fail to end (the handle object-info walk, the `lines()`
+  iterator) takes fuel and reports fuel exhaustion as a panic outcome, and
   every `Vec::with_capacity`/`HashMap::with_capacity`/`to_owned` is logged.
 
   Hypotheses, and why they do not restrict the quantifier:
@@ -28,14 +35,17 @@
   The endianness is read off the signature, so "both byte orders" is inside "all byte strings";
   the per-reader lemmas (`MdProofs.Lemmas.BytesStreams`) hold for either `Endian` explicitly.
 
-  PARTIAL: the per-stream printers (other than the exception parameter loop), the text-stream
-  iterators, contexts, MinidumpSystemInfo/MiscInfo/BreakpadInfo/MacCrashInfo/... and the third-party decoders
-  (`encoding_rs`, `procfs-core`, `time`, `uuid`, `range-map`) are not modelled; for them the
-  `read` engine's oracle (catch_unwind + counting allocator + time budget) is a sampled check.
+  PARTIAL: the TEXT the printers emit (the model covers their indexing / offset arithmetic only),
+  `MinidumpMiscInfo`, `MinidumpLinuxMaps` (C02's round), `UnifiedMemoryInfoList`, `os_parts`,
+  `valid_registers` (C18's model), the `Module` identifier accessors (C02's model) and the
+  third-party decoders (`encoding_rs`, `procfs-core`, `time`, `uuid`, `range-map`) are not part of
+  these theorems; for them the `read` engine's oracle (catch_unwind + counting allocator + time
+  budget) is a sampled check.
 -/
 import MdProofs.Lemmas.BytesTotal
+import MdProofs.Lemmas.BytesFull
 namespace MdModel.Dump
-open MdModel MdModel.Gen.Layouts
+open MdModel MdModel.Gen.Layouts MdModel.Gen.LayoutsX
 
 /-! ## 1. "either succeeds or returns an error. It never panics (arithmetic overflow included)" -/
 
@@ -319,5 +329,243 @@ example (info : List Nat) (hl : info.length = 15) :
     (printedParams { threadId := 0, code := 0, flags := 0, record := 0, address := 0, numberParameters := 16,
                      info := info, ctxLoc := ⟨0, 0⟩, context := none }).length = 15 := by
   simp [printedParams, hl]
+
+/-! ## 7. the whole reader (`readFull`): "requesting every supported stream, querying what was
+      parsed (… thread contexts and stacks, crash reason and address, … key/value text streams) …
+      either succeeds or returns an error. It never panics, always terminates, and never sizes an
+      allocation from a count or length field that the file's own size does not back" -/
+
+/-- **C01.7a** For every byte string the panic outcome of `readFull` is unreachable — `readAll`
+    plus system info, every thread's / the exception's CPU context, stack lookup, last-error read,
+    the printers' dump loops, the text-stream iterators (their "does not end" outcome included),
+    Breakpad / assertion / macOS crash info / boot args, the crash-reason array reads. -/
+theorem full_no_panic (ms : MemSizes) (hms : ms.Bounded) (b : Bytes) (hsz : SliceLen b.size) :
+    ∀ site, (readFull ms b).res ≠ .panic site :=
+  (readFull_safe ms hms b hsz).1
+
+/-- **C01.7b** `readFull` always produces a value (errors of the header or of single streams are
+    values inside it). -/
+theorem full_total (ms : MemSizes) (hms : ms.Bounded) (b : Bytes) (hsz : SliceLen b.size) :
+    ∃ r, (readFull ms b).res = .ok r := by
+  cases hr : (readFull ms b).res with
+  | ok r => exact ⟨r, rfl⟩
+  | panic s => exact absurd hr (full_no_panic ms hms b hsz s)
+  | err e => exact absurd hr (readFull_noErr ms b e)
+
+/-- **C01.7c** every allocation `readFull` logs asks for at most `K = 32` times the file length. -/
+theorem full_alloc_backed (ms : MemSizes) (hms : ms.Bounded) (b : Bytes) (hsz : SliceLen b.size) :
+    ∀ a ∈ (readFull ms b).allocs, a.n * a.sz ≤ K * b.size :=
+  (readFull_safe ms hms b hsz).2
+
+/-- **C01.7d** the second group adds at most 110 allocations (none for contexts, stacks, text
+    iterators and printers; at most 5 per macOS crash-info record, of which there are at most 20),
+    so the sum of ALL requests stays at most quadratic: the bound of `alloc_total_quadratic` plus
+    `110 * 32 * len`. -/
+theorem full_alloc_total_quadratic (ms : MemSizes) (hms : ms.Bounded) (b : Bytes) (hsz : SliceLen b.size) :
+    totalBytes (readFull ms b).allocs ≤
+      (21 + 10 * (b.size / 8)) * (K * b.size) + (11 * b.size + (b.size / 12) * (9 * b.size)) + 110 * (K * b.size) := by
+  unfold readFull
+  refine total_bind (alloc_total_quadratic ms hms b hsz) (fun r hr => ?_)
+  split
+  · rw [total_pure]; omega
+  · rename_i p
+    have := total_bind (C := 0) (total_readExtra b p hsz (readAll_parsedOk hr))
+      (f := fun x => (pure (.ok ⟨p, x⟩) : M (Except Err Full))) (fun _ _ => by rw [total_pure]; omega)
+    omega
+
+/-! ## 8. thread contexts: which buffers `MinidumpContext::read` accepts; no out-of-bounds read -/
+
+/-- **C01.8a** Complete characterisation of `MinidumpContext::read(bytes, endian, system_info)`:
+    an architecture without a branch is `UnknownCpuContext`; otherwise a buffer shorter than that
+    CPU's record is `ReadFailure`; otherwise the record is read from the first `wireSize` bytes —
+    whatever follows is ignored — and accepted iff the CPU bits of its `context_flags`
+    (`from_bits_truncate(flags & 0xffffff00)`, for 64-bit flag words after `as u32`) are exactly that
+    CPU's constant. -/
+theorem context_read_spec (bytes : Bytes) (e : Endian) (arch : Nat) :
+    match ctxKindOfArch arch with
+    | none => contextRead bytes e arch = .error .unknownCpu
+    | some k =>
+      if bytes.size < k.wireSize then contextRead bytes e arch = .error .readFailure
+      else ∃ vs flags, readFields k.layout bytes 0 e = some vs ∧ getField? k.layout vs "context_flags" = some flags ∧
+        contextRead bytes e arch =
+          if contextFlagsCpu flags = k.cpuFlag then .ok ⟨k, vs, flags⟩ else .error .readFailure := by
+  cases hk : ctxKindOfArch arch with
+  | none => exact contextRead_unknown hk
+  | some k =>
+    simp only
+    split
+    · rename_i h; exact contextRead_short hk h
+    · rename_i h; exact contextRead_fits hk (by omega)
+
+/-- **C01.8b** the architectures with a branch, and the accepted record sizes (bytes) -/
+theorem context_record_sizes :
+    (∀ a k, ctxKindOfArch a = some k →
+      a = 0 ∨ a = 10 ∨ a = 9 ∨ a = 3 ∨ a = 32770 ∨ a = 32769 ∨ a = 5 ∨ a = 12 ∨ a = 32771 ∨ a = 1) ∧
+    CtxKind.x86.wireSize = 716 ∧ CtxKind.amd64.wireSize = 1232 ∧ CtxKind.arm.wireSize = 368 ∧
+    CtxKind.arm64.wireSize = 912 ∧ CtxKind.arm64Old.wireSize = 796 ∧ CtxKind.mips.wireSize = 600 ∧
+    CtxKind.ppc.wireSize = 1004 ∧ CtxKind.ppc64.wireSize = 1160 ∧ CtxKind.sparc.wireSize = 584 ∧
+    (∀ k : CtxKind, Layout.size k.layout = k.wireSize) :=
+  ⟨fun _ _ h => ctxKindOfArch_some h, ctx_sizes_as_documented.1, ctx_sizes_as_documented.2.1, ctx_sizes_as_documented.2.2.1,
+   ctx_sizes_as_documented.2.2.2.1, ctx_sizes_as_documented.2.2.2.2.1, ctx_sizes_as_documented.2.2.2.2.2.1,
+   ctx_sizes_as_documented.2.2.2.2.2.2.1, ctx_sizes_as_documented.2.2.2.2.2.2.2.1, ctx_sizes_as_documented.2.2.2.2.2.2.2.2,
+   size_ctx⟩
+
+/-- **C01.8c** no out-of-bounds read: an accepted context lies inside the bytes it was read from,
+    and `get_instruction_pointer`, `get_stack_pointer` and the registers `print` reaches by index
+    (`iregs[..29]`, `iregs[29]`, `iregs[30]`, the twelve MIPS registers) exist in its arrays. -/
+theorem context_in_bounds {bytes : Bytes} {e : Endian} {arch : Nat} {c : Context}
+    (h : contextRead bytes e arch = .ok c) :
+    c.kind.wireSize ≤ bytes.size ∧ contextFlagsCpu c.flags = c.kind.cpuFlag ∧
+    (∀ site, c.ip.res ≠ .panic site) ∧ (∀ site, c.sp.res ≠ .panic site) ∧
+    (∀ site, (ctxPrintReads c).res ≠ .panic site) := by
+  have ⟨_, h2, _, h4, _, h6⟩ := contextRead_ok h
+  exact ⟨h2, h6, (ctx_ip_safe (B := 0) c h4).1, (ctx_sp_safe (B := 0) c h4).1, (ctxPrintReads_safe (B := 0) c h4).1⟩
+
+/-- the value / the error of an outcome (for the examples below: `Res` has no decidable equality) -/
+def resValue {α : Type} : Res α → Option α
+  | .ok a => some a
+  | _ => none
+def resError {α : Type} : Res α → Option Err
+  | .err e => some e
+  | _ => none
+
+/-- outcome of a context read as a word (for the examples below) -/
+def ctxOutcome : Except CtxErr Context → String
+  | .ok c => c.kind.name
+  | .error .readFailure => "ReadFailure"
+  | .error .unknownCpu => "UnknownCpuContext"
+
+/-- a 716-byte x86 record with `context_flags = CONTEXT_X86` is accepted (processor architecture 0),
+    also with trailing bytes; 715 bytes are not, nor is the record under a system info that says
+    AMD64; IA64 (6) has no branch -/
+example :
+    ctxOutcome (contextRead (((Array.replicate 716 (0 : UInt8)).set! 2 1) : Bytes) .little 0) = "X86" ∧
+    ctxOutcome (contextRead (((Array.replicate 800 (0 : UInt8)).set! 2 1) : Bytes) .little 0) = "X86" ∧
+    ctxOutcome (contextRead (((Array.replicate 715 (0 : UInt8)).set! 2 1) : Bytes) .little 0) = "ReadFailure" ∧
+    ctxOutcome (contextRead (((Array.replicate 716 (0 : UInt8)).set! 2 1) : Bytes) .little 9) = "ReadFailure" ∧
+    ctxOutcome (contextRead (((Array.replicate 716 (0 : UInt8)).set! 2 1) : Bytes) .little 6) = "UnknownCpuContext" := by
+  decide +kernel
+
+/-! ## 9. "thread contexts and stacks": `context`, `stack_memory`, `last_error`, the stack dump -/
+
+/-- **C01.9a** For every file, every byte order, every system info (or none), every memory view and
+    every thread record: `MinidumpThread::context`, `stack_memory`, `last_error` (three CPUs) and the
+    stack dump loop of `print` reach no panic outcome and allocate nothing. -/
+theorem thread_view_total (all : Bytes) (e : Endian) (sys : Option SysInfo) (mv : MemView) (t : Thread)
+    (hsz : SliceLen all.size) :
+    (∀ site, (threadX all e sys mv t).res ≠ .panic site) ∧ (threadX all e sys mv t).allocs = [] := by
+  refine ⟨(threadX_safe (B := 0) all e sys mv t hsz).1, ?_⟩
+  have := cnt_threadsX all e sys mv [t]
+  rw [cnt_zero_iff] at this
+  unfold threadsX at this
+  -- `threadsX [t]` = `threadX t >>= fun x => pure [] >>= fun xs => pure (x :: xs)`
+  cases hres : (threadX all e sys mv t).res with
+  | ok a =>
+    rw [M.bind_def] at this
+    unfold M.bind' at this
+    rw [hres] at this
+    simp only at this
+    exact List.append_eq_nil_iff.mp this |>.1
+  | err er =>
+    rw [M.bind_def] at this
+    unfold M.bind' at this
+    rw [hres] at this
+    exact this
+  | panic s =>
+    rw [M.bind_def] at this
+    unfold M.bind' at this
+    rw [hres] at this
+    exact this
+
+/-- **C01.9b** `MinidumpMemoryListBase::from_regions` never fails, for ANY list of regions (C08's
+    `into_rangemap_safe` theorem carried over to the reader). -/
+theorem memory_table_never_fails (rs : List Region) : ∀ site, (memTable rs).res ≠ .panic site :=
+  (memTable_safe (B := rs.length * 32) rs (Nat.le_refl _)).1
+
+/-- **C01.9c** the dump loops of the printers (`offset += chunk_size` per stack word,
+    `offset += 16` per paragraph) cannot overflow and the `try_into().unwrap()` of a stack word
+    cannot fail, for every CPU and every buffer a slice can be. -/
+theorem print_loops_total (cpu : CpuKind) (len : Nat) (h : SliceLen len) :
+    (∀ site, (printStackWords cpu len).res ≠ .panic site) ∧ (∀ site, (printContents len).res ≠ .panic site) :=
+  ⟨(printStackWords_safe (B := 0) cpu len h).1, (printContents_safe (B := 0) len h).1⟩
+
+/-! ## 10. the key/value text streams and their iterators -/
+
+/-- **C01.10a** For every stream and every separator: the iterator of `linux_list_iter` driven to
+    the end reaches no panic outcome (no slice index out of range in `split_once`,
+    `trim_ascii_whitespace`, `strip_quotes`; no `idx + 1` overflow), ENDS — it yields a list of at
+    most `len + 1` pairs, the "does not end" outcome is unreachable with `len + 1` iterations, each of
+    which consumes at least one byte —, allocates nothing, and every key and value it hands out is a
+    sub-slice of the stream with the key before the value. -/
+theorem text_iter_total (b : Bytes) (sep : UInt8) (hsz : SliceLen b.size) :
+    ∃ l, (linuxListIter b sep).res = .ok l ∧ l.length ≤ b.size + 1 ∧ (linuxListIter b sep).allocs = [] ∧
+      ∀ kv ∈ l, kv.1.1 ≤ kv.1.2 ∧ kv.1.2 < kv.2.1 ∧ kv.2.1 ≤ kv.2.2 ∧ kv.2.2 ≤ b.size := by
+  have ⟨hnp, hal, hq⟩ := linuxListIter_spec b sep hsz
+  cases hr : (linuxListIter b sep).res with
+  | panic s => exact absurd hr (hnp s)
+  | err er =>
+    exfalso
+    unfold linuxListIter at hr
+    exact noErr_scanLines b _ (fun lo hi e' => kvLine_not_err b sep lo hi e') _ _ _ er hr
+  | ok l =>
+    have ⟨h1, h2⟩ := hq l hr
+    refine ⟨l, rfl, h2, hal, fun kv hkv => ?_⟩
+    obtain ⟨⟨_, a2, _⟩, ⟨_, c2, c3⟩, d⟩ := h1 kv hkv
+    exact ⟨a2, d, c2, c3⟩
+
+/-- **C01.10b** the same for `MinidumpLinuxProcLimits::iter` (plain `lines()`). -/
+theorem lines_iter_total (b : Bytes) :
+    ∃ l, (linesIter b).res = .ok l ∧ l.length ≤ b.size + 1 ∧ (linesIter b).allocs = [] ∧
+      ∀ sp ∈ l, sp.1 ≤ sp.2 ∧ sp.2 ≤ b.size := by
+  have ⟨hnp, hal, hq⟩ := linesIter_spec b
+  cases hr : (linesIter b).res with
+  | panic s => exact absurd hr (hnp s)
+  | err er =>
+    exfalso
+    unfold linesIter at hr
+    exact noErr_scanLines b _ (fun lo hi e' h => by cases h) _ _ _ er hr
+  | ok l =>
+    have ⟨h1, h2⟩ := hq l hr
+    exact ⟨l, rfl, h2, hal, fun sp hsp => ⟨(h1 sp hsp).2.1, (h1 sp hsp).2.2⟩⟩
+
+/-- `DISTRIB_ID = "Ubuntu"` (blanks around the separator, quoted value), a line without separator,
+    a lone quote as value (the input of seeded change C01-2b), CR LF -/
+example : resValue (linuxListIter ("DISTRIB_ID = \"Ubuntu\"\nno separator\nK=\"\r\n".toUTF8.data : Bytes) SEP_EQUALS).res =
+    some [((0, 10), (14, 20)), ((35, 36), (37, 38))] := by decide +kernel
+
+/-! ## 11. Breakpad info, assertion info, macOS crash info and boot args, crash reason / address -/
+
+/-- **C01.11a** macOS crash info: for every stream and file no panic outcome; the record loop runs at
+    most 20 times and every record reads at most 5 C strings, whatever `record_count` says, so at most
+    100 strings are copied, each at most as long as the file; the C-string scan ends (`len + 1` steps
+    always suffice: more fuel never changes its answer); the printer's `self.raw[i]` is in bounds. -/
+theorem mac_crash_info_total (b all : Bytes) (e : Endian) :
+    (∀ site, (readMacCrashInfo b all e).res ≠ .panic site) ∧
+    (∀ a ∈ (readMacCrashInfo b all e).allocs, a.n * a.sz ≤ all.size) ∧
+    (readMacCrashInfo b all e).allocs.length ≤ 100 ∧
+    (∀ rec off extra, cstringScan rec (rec.size + 1 + extra) off = cstringScan rec (rec.size + 1) off) ∧
+    (∀ rs, ∀ site, (macPrint rs).res ≠ .panic site) :=
+  ⟨(readMacCrashInfo_safe b all e (Nat.le_refl _)).1, (readMacCrashInfo_safe b all e (Nat.le_refl _)).2,
+   cnt_readMacCrashInfo b all e, cstringScan_fuel_irrelevant, fun rs => (macPrint_safe (B := 0) rs).1⟩
+
+/-- **C01.11b** Breakpad info, assertion info (`&data[..len]` of the three 128-unit arrays) and the
+    boot-args reader reach no panic outcome on any bytes. -/
+theorem small_streams_total (b all : Bytes) (e : Endian) (hsz : SliceLen all.size) :
+    (∀ site, (readBreakpadInfo b e).res ≠ .panic site) ∧ (∀ site, (readAssertion b e).res ≠ .panic site) ∧
+    (∀ data : List Nat, ∀ site, (utf16ToString data).res ≠ .panic site) ∧
+    (∀ site, (readMacBootargs b all e).res ≠ .panic site) :=
+  ⟨(readBreakpadInfo_safe (B := 0) b e).1, (readAssertion_safe b e (Nat.le_refl _)).1,
+   fun data => (utf16ToString_safe data (Nat.le_refl _)).1,
+   (readMacBootargs_safe b all e hsz (Nat.le_refl _)).1⟩
+
+/-- **C01.11c** `get_crash_reason` / `get_crash_address` index `exception_information[0..=2]` of an
+    exception stream that could be read: always in bounds. -/
+theorem crash_reason_reads_in_bounds {b all : Bytes} {e : Endian} {x : Exception}
+    (h : (readException b all e).res = .ok x) : ∀ site, (reasonInputs x).res ≠ .panic site :=
+  (reasonInputs_safe (B := 0) x (readException_info_length h)).1
+
+/-- a version-5 record whose string table ends early (4 of 5 terminators): an error value, no panic -/
+example : resError (readCStrings ("a\x00b\x00c\x00d\x00e".toUTF8.data : Bytes) 5 0).res = some .StreamReadFailure := by decide +kernel
+
 
 end MdModel.Dump
